@@ -177,6 +177,17 @@ func runA(c *common.Ctx, res *common.Result, col *collector) {
 		}
 	}
 	res.Add("signatures", int64(len(items)))
+	for _, a := range c.Args {
+		if a == "count" { // maintenance: size of space A without running it
+			var n int64
+			for _, it := range items {
+				n += int64(len(it.calls))
+			}
+			fmt.Println("space A calls (before removing undetermined ones):", n)
+			res.Cap("count only")
+			return
+		}
+	}
 	var capped int32
 	samples := make([]interface{}, len(items))
 	step := len(items)/8 + 1
